@@ -62,8 +62,13 @@ def make_pool(rng, size=None):
 
 
 def make_values(rng):
+    from .hgen import MAGIC
+
     n = rng.choice([1, 2, 3, 5])
-    return [bytes([rng.randrange(256)]) * rng.choice([1, 2, 7, 32, 40]) for _ in range(n)]
+    vals = [bytes([rng.randrange(256)]) * rng.choice([1, 2, 7, 32, 40]) for _ in range(n)]
+    if rng.random() < 0.15:
+        vals[rng.randrange(n)] = rng.choice(MAGIC)
+    return vals
 
 
 def probe_keys(rng, pool):
@@ -110,7 +115,7 @@ class BHistory:
         kind = rng.choices(kinds, [self.w[k] for k in kinds])[0]
         present = self.present
         if kind == "reopen":
-            return {"op": "reopen", "root": rng.randrange(1000) if rng.random() < 0.4 else -1, "assign": int(rng.random() < 0.5)}
+            return {"op": "reopen", "root": rng.randrange(1000) if rng.random() < 0.4 else -1, "assign": int(rng.random() < 0.5), "lost": int(rng.random() < 0.25)}
         if kind in ("del", "sete") and present and rng.random() < 0.8:
             k = rng.choice(sorted(present))
         elif kind == "sub":
